@@ -13,7 +13,7 @@ import (
 	"strconv"
 
 	"verifharness/core"
-	_ "verifharness/mon"
+	"verifharness/mon"
 )
 
 func main() {
@@ -53,6 +53,11 @@ func main() {
 		from, _ := strconv.Atoi(a[3])
 		to, _ := strconv.Atoi(a[4])
 		os.Exit(core.ChildMain(a[0], a[1], seed, from, to, a[5]))
+	case "aux":
+		if len(os.Args) < 3 || !mon.RunAux(os.Args[2]) {
+			fmt.Println("unknown aux command")
+			os.Exit(2)
+		}
 	case "replay":
 		if len(os.Args) < 3 {
 			os.Exit(2)
